@@ -13,7 +13,6 @@ use lightning::ln::types::ChannelId;
 use lightning::ln::wire::{CustomMessageReader, Type};
 use lightning::types::features::{InitFeatures, NodeFeatures};
 use lightning::types::payment::PaymentPreimage;
-use lightning::io::Read as _;
 use lightning::util::logger::{Logger, Record};
 use lightning::util::ser::{LengthLimitedRead, Writeable, Writer};
 use lightning::util::test_utils::TestNodeSigner;
@@ -95,9 +94,6 @@ impl SocketDescriptor for Sock {
 		if st.pending_rest != data.len() {
 			let at = st.out.len();
 			st.unit_starts.push(at);
-		}
-		if std::env::var("C15_TRACE").is_ok() {
-			eprintln!("sock {} send_data len={} accepted={} continue_read={}", self.id, data.len(), n, continue_read);
 		}
 		st.out.extend_from_slice(&data[..n]);
 		st.pending_rest = data.len() - n;
@@ -257,7 +253,6 @@ pub struct Node {
 	pub cust: Arc<CustRec>,
 	pub log: Log,
 	pub node_id: PublicKey,
-	pub secret: SecretKey,
 }
 
 pub fn secret_from_seed(tag: u8, seed: u8) -> SecretKey {
@@ -289,7 +284,7 @@ pub fn make_node(key_seed: u8, eph_seed: u8) -> Node {
 		Arc::new(NullLogger),
 		Arc::new(TestNodeSigner::new(secret)),
 	);
-	Node { pm, chan, cust, log, node_id, secret }
+	Node { pm, chan, cust, log, node_id }
 }
 
 // ---------------------------------------------------------------------------------------------
